@@ -13,7 +13,8 @@ formula identity (whole cycles of the reception time; same cycle exactly when no
 earlier; both returned), anchored at every call site (CAM and VAM reception) at the wall clock scaled to milliseconds
 BEFORE truncation; GenerationDeltaTime.__sub__ = (a - b) mod 65536, and no sender code ordering two
 generationDeltaTime values other than through that difference; (f) report-keys: in the CAM / VAM transmission modules every report['k']
-read is dominated by a presence test of that key, so a report lacking an optional field cannot raise KeyError.
+read is dominated by a presence test of that key, so a report lacking an optional field cannot raise KeyError, and no
+numeric report field is tested for truthiness (a measured 0 is a measurement, not a missing value).
 (a)-(d), (f) are the conditions under which the encoder or builder raises, wraps or silently drops a value.
 Does not decide bit-exact UPER output, truncation vs rounding of int(), nor "no report stalls generation" beyond (f)
 and the re-arming rule of C10.
@@ -345,6 +346,9 @@ def reception_clock(ctx):
         raise AnalysisError(f"C11: only {n} call sites of as_timestamp_in_certain_point found (confirmed: CAM and VAM reception)")
 
 
+NON_NUMERIC_REPORT_KEYS = {"time", "device", "class", "mode", "status"}      # strings / enumerations of the gpsd report
+
+
 def report_keys(ctx):
     """A position report may lack any optional field (no fix yet, standstill, accuracy unknown): every `report['k']` read on
     the transmission paths must be dominated by a presence test of that key (`'k' in report`), as the CA service does
@@ -374,6 +378,29 @@ def report_keys(ctx):
                     present = {f"in('{k}',{r})", f"in('{k}',{r}.keys())", f"!is(None,{r}.get('{k}'))", f"truthy({r}.get('{k}'))"}
                     if not (fs & present):
                         bad.append((k, node.lineno))
+            # a measured 0 is a measurement: no decision of these functions tests a numeric report field for truthiness
+            # (`speed = tpv.get('speed'); if speed:` reports a VRU at standstill as `speed unavailable`)
+            falsy = []
+            for node in ast.walk(fi.node):
+                test = node.test if isinstance(node, (ast.If, ast.IfExp, ast.While)) else None
+                if test is None or id(node) not in getattr(fl, "before", {}) and not isinstance(node, ast.IfExp):
+                    continue
+                try:
+                    st = fl.state_at(node)
+                    xt = fl.expand(test, st)
+                except Exception:  # noqa
+                    continue
+                for a_ in sem.atoms(xt, True):
+                    for r in reports:
+                        m_ = re.fullmatch(r"!?truthy\(" + re.escape(r) + r"(?:\['(\w+)'\]|\.get\('(\w+)'(?:,[^)]*)?\))\)", a_)
+                        if m_ and (m_.group(1) or m_.group(2)) not in NON_NUMERIC_REPORT_KEYS:
+                            falsy.append((m_.group(1) or m_.group(2), node.lineno))
+            if reports and (falsy or any(isinstance(x, (ast.If, ast.IfExp)) for x in ast.walk(fi.node))):
+                ctx.ob("C11.report-keys", fi.short(), "zero-is-a-measurement", not falsy,
+                       "no numeric field of the report is tested for truthiness" if not falsy else
+                       f"the numeric report field(s) {sorted({k for k, _ in falsy})} are tested for truthiness (line {falsy[0][1]}): a measured 0 "
+                       "(standstill, heading north, the equator / the prime meridian) is treated as a missing value and the message "
+                       "carries `unavailable` or the previous value instead of the measurement", fi.loc)
             if reports:
                 keys = sorted({k for k, _ in bad})
                 ctx.ob("C11.report-keys", fi.short(), "presence-tested", not bad,
